@@ -54,6 +54,9 @@ fn flags_invariant(f: ValueFlags, kind: OutputKind) -> bool {
         && (!f.needs_plt() || f.needs_got())
         // TLS variables are reached through TLS GOT slots only
         && (!tls || (!f.needs_got() && !f.needs_plt() && !f.is_ifunc() && !f.needs_ifunc_got_for_address()))
+        // a TLS variable that gets GOT slots is either defined in the output (has an address) or
+        // imported; undefined weak TLS symbols (ABSOLUTE) are outside this contract
+        && (!tls || !f.is_absolute())
         // ifuncs that are resolved at all go through GOT + PLT; the extra address slot exists only
         // for ifuncs in non-relocatable outputs
         && (!f.is_ifunc() || (f.needs_got() && f.needs_plt()))
@@ -73,10 +76,18 @@ fn rela_tuple(r: &Rela) -> (u64, u64, i64) {
 }
 
 fn harness(tls_case: bool) {
+    harness_bits(tls_case, None)
+}
+
+fn harness_bits(tls_case: bool, only: Option<ValueFlags>) {
     let kind = any_kind();
     let flags = ValueFlags::from_bits_retain(kani::any());
     kani::assume(flags_invariant(flags, kind));
     kani::assume(flags.is_tls() == tls_case);
+    if let Some(o) = only {
+        let tls_bits = ValueFlags::GOT_TLS_OFFSET | ValueFlags::GOT_TLS_MODULE | ValueFlags::GOT_TLS_DESCRIPTOR;
+        kani::assume(flags & tls_bits == o);
+    }
     let relr: bool = kani::any();
     let args = crate::args::elf::__verif_elf_args::partial_args(relr, false);
     let has_dynamic_symbol = flags.is_dynamic() || (flags.needs_export_dynamic() && flags.is_interposable());
@@ -87,7 +98,7 @@ fn harness(tls_case: bool) {
     // ---- TLS segment and symbol value
     let tls_start: u64 = kani::any();
     let tls_size: u64 = kani::any();
-    kani::assume(tls_start <= 1 << 40 && tls_size <= 1 << 30 && tls_start % 64 == 0);
+    kani::assume(tls_start >= 4096 && tls_start <= 1 << 40 && tls_size <= 1 << 30 && tls_start % 64 == 0);
     let raw_value: u64 = kani::any();
     if tls_case {
         kani::assume(raw_value >= tls_start && raw_value <= tls_start + tls_size);
@@ -218,6 +229,25 @@ macro_rules! c23_harness {
         }
     };
 }
+
+macro_rules! c23_bits_harness {
+    ($name:ident, $bits:expr) => {
+        #[kani::proof]
+        #[kani::unwind(42)]
+        #[kani::stub(alloc::fmt::format, stubs::verif_format_stub)]
+        #[kani::stub(crate::file_writer::verify_allocations_message, stubs::verif_empty_string)]
+        #[kani::stub(tracing::callsite::DefaultCallsite::interest, stubs::verif_tracing_interest_never)]
+        #[kani::stub(tracing::__macro_support::__is_enabled, stubs::verif_tracing_not_enabled)]
+        #[kani::stub(tracing::Event::dispatch, stubs::verif_tracing_event_dispatch_noop)]
+        #[kani::stub(tracing::Span::new, stubs::verif_tracing_span_none)]
+        fn $name() {
+            harness_bits(true, Some($bits));
+        }
+    };
+}
+c23_bits_harness!(c23_tls_initial_exec_slot_only, ValueFlags::GOT_TLS_OFFSET);
+c23_bits_harness!(c23_tls_general_dynamic_pair_only, ValueFlags::GOT_TLS_MODULE);
+c23_bits_harness!(c23_tls_descriptor_only, ValueFlags::GOT_TLS_DESCRIPTOR);
 
 c23_harness!(c23_non_tls_resolution_consumes_exactly_its_allocation, false);
 c23_harness!(c23_tls_resolution_consumes_exactly_its_allocation_and_slots_agree, true);
